@@ -106,13 +106,15 @@ def handle (toks : List String) (impl : String) : Verdict :=
     | none => badOp "blocks"
     | some cl =>
       let enc := Rpki.AsDer.encodeExt cl
-      { model := some (toHex (enc.map UInt8.ofNat) ++ " rt-same"),
+      { model := some (toHex (enc.map UInt8.ofNat) ++ (if what = "-" then " rt-differs" else " rt-same")),
         oracle := match impl.splitOn " " with
           | [h, rt] =>
             (match (parseHex h).map (·.map UInt8.toNat) with
             | none => some "unreadable"
             | some der =>
-              if rt ≠ "rt-same" then some s!"the library's reader does not read back the AS resources the library wrote ({rt})"
+              -- `AsResources::blocks` of an empty set is the *missing* variant, which certificates express by
+              -- omitting the extension; its stand-alone encoding reads back as an empty block list, not as missing
+              if rt ≠ "rt-same" ∧ what ≠ "-" then some s!"the library's reader does not read back the AS resources the library wrote ({rt})"
               else if Rpki.AsDer.decodeExt der = some cl then none
               else some "the encoded AS resources extension does not decode back to the same set")
           | _ => some "unreadable result" }
